@@ -1,5 +1,6 @@
 import ChythonModel.Py.Hash
 import ChythonModel.Model.Graph
+import ChythonModel.Gen.C17Cache
 /-!
 # C17 — executable model of `chython/algorithms/fingerprints/{linear,morgan,__init__}.py`
 
@@ -156,10 +157,19 @@ def shiftLoop (log mask : Nat) : Nat → Int → List Nat
   | 0, _ => []
   | k + 1, tpl => let tpl' := tpl >>> log; pyAndMask tpl' mask :: shiftLoop log mask k tpl'
 
+/-- `int(math.log2(length))` for `1 ≤ length < 2^64`. `math.log2` of a Python int goes through a C double: the exact
+    `⌊log₂ length⌋ = Nat.log2 length`, except that just below a large power of two the float logarithm rounds *up* to the
+    integer `k`; where that happens is measured on every run (`Gen.C17.log2RoundsUpFrom`, first at `2^49 − 1`).
+    `Props.C17.log2_trunc_exact_below` states the exact domain on which this is `Nat.log2`. -/
+def pyLog2Trunc (n : Nat) : Nat :=
+  match Gen.C17.log2RoundsUpFrom.find? (fun kt => decide (kt.2 ≤ n) && decide (n < 2 ^ kt.1)) with
+  | some kt => kt.1
+  | none => n.log2
+
 /-- the bits one hash switches on -/
 def bitsOfHash (length : Nat) (nab : Int) (tpl : Int) : List Nat :=
   let mask := length - 1
-  let log := length.log2
+  let log := pyLog2Trunc length
   pyAndMask tpl mask ::
     (if nab = 2 then [pyAndMask (tpl >>> log) mask]
      else if nab > 2 then shiftLoop log mask (nab - 1).toNat tpl
